@@ -109,7 +109,7 @@ fn notify_all_body(len: usize) {
 }
 
 crate::with_fire_forbidden! {
-//@ props=C08,C04 tier=thorough timeout=3000 weight=heavy fns=src/rt/condvar.rs::Condvar::notify_all bounded=threads:N=3,waiters:len<=2 models=Execution::schedule=probe,Scheduler::switch=counting,VersionVec::join=s_vv_models_agree
+//@ props=C08,C04 tier=thorough timeout=3000 fns=src/rt/condvar.rs::Condvar::notify_all bounded=threads:N=3,waiters:len<=2 models=Execution::schedule=probe,Scheduler::switch=counting,VersionVec::join=s_vv_models_agree
 #[kani::proof]
 #[kani::unwind(7)]
 #[kani::stub(crate::rt::execution::Execution::schedule, crate::rt::execution::Execution::schedule_probe_model)]
